@@ -86,8 +86,9 @@ class Sys:
                 for S in itertools.product(range(nm), repeat=n):
                     out.append(("newu", tuple(S), "list"))
             # other iterable kinds for the constructor argument
-            out.append(("newv", (0, 0), "tuple"))
-            out.append(("newv", (1, 0), "gen"))
+            if w.u:
+                out.append(("newv", (0, 0), "tuple"))
+                out.append(("newv", (len(w.u) - 1, 0), "gen"))
             out.append(("newu", (0, 0), "tuple"))
             out.append(("newu", (nm - 1, 0), "gen"))
             out.append(("newv", None, "none"))
